@@ -26,7 +26,7 @@ ASSUMPTIONS = [
     "aliasing between a result and its receiver (shared entry objects) is not a violation by itself: the statement is about the call",
 ]
 REQUIRED_CLASSES = ["args:unsorted_argument", "tier_history:mutator_failed", "tg_ops:mutator_failed", "save_fail:failed_with_existing_file",
-                    "tg_ops:rename_clash", "tg_ops:add_span_error"]
+                    "tg_ops:rename_clash", "tg_ops:add_span_error", "tg_ops:replace_of_only_tier_failed"]
 
 
 def run_tier_history(case):
@@ -69,6 +69,10 @@ def run_tier_history(case):
 def tg_op_cases(draw):
     style = draw(gen.STYLES_ARITH)
     spec = draw(gen.textgrid(style=style, max_tiers=3, label=gen.AB))
+    if draw(st.integers(0, 3)) == 0:
+        # a textgrid that declares a longer span than its tiers have (a tier added in 'silence' mode does not shrink it)
+        spec = draw(gen.textgrid(style=style, max_tiers=draw(st.sampled_from([1, 2])), label=gen.AB, clean=False))
+        spec["maxT"] = spec["maxT"] + 1.5
     other = draw(gen.textgrid(style=style, max_tiers=2, label=gen.AB))
     names = [t["name"] for t in spec["tiers"]]
     ts = sorted({t for tr in spec["tiers"] for e in tr["entries"] for t in e[:-1]} | {spec["minT"], spec["maxT"]})
@@ -76,6 +80,8 @@ def tg_op_cases(draw):
     kind = draw(st.sampled_from(["crop", "erase", "insert_space", "edit", "append", "merge", "new", "validate", "save_str",
                                  "queries", "add", "add", "remove", "rename", "rename", "replace", "replace",
                                  "tier_insert", "tier_insert", "tier_insert", "tier_delete"]))
+    if spec["maxT"] > max(t["maxT"] for t in spec["tiers"]) and draw(st.booleans()):
+        kind = draw(st.sampled_from(["replace", "rename", "add", "replace", "remove", "replace"]))  # the textgrid's own span is at stake here
     op = {"kind": kind}
     anyname = st.sampled_from(names + ["zz"])
     if kind in ("crop", "erase"):
@@ -100,7 +106,7 @@ def tg_op_cases(draw):
     elif kind == "rename":
         op.update(name=draw(anyname), new=draw(st.sampled_from(names + ["zz", "yy"])))
     elif kind == "replace":
-        op.update(name=draw(anyname), new=draw(st.sampled_from(names + ["zz"])),
+        op.update(name=draw(anyname if len(names) > 1 else st.sampled_from(names + names + ["zz"])), new=draw(st.sampled_from(names + ["zz"])),
                   span=draw(st.sampled_from([[spec["minT"], spec["maxT"]], [spec["minT"], spec["maxT"] + 1.0]])),
                   mode=draw(st.sampled_from(["silence", "warning", "error", "error", "bogus"])))
     elif kind == "tier_insert":
@@ -121,6 +127,8 @@ def run_tg_op(case):
     mutator = kind in ("add", "remove", "rename", "replace", "tier_insert", "tier_delete")
     new_tier = None
     classes = {kind}
+    if len(spec["tiers"]) == 1 and spec["maxT"] > spec["tiers"][0]["maxT"]:
+        classes.add("single_tier_shorter_than_textgrid")
 
     def mk_new(name, span):
         return p.IntervalTier(name, [p.Interval(span[0], (span[0] + span[1]) / 2, "new")], span[0], span[1])
@@ -196,6 +204,8 @@ def run_tg_op(case):
             tag = "not-atomic" if mutator else "mutated-on-failure"
             raise Violation(f"{tag}:{kind}", f"{what}: raised {type(exc).__name__}: {exc}; textgrid changed from {before} to {after}")
         classes.add("mutator_failed" if mutator else "copy_op_failed")
+        if kind == "replace" and "single_tier_shorter_than_textgrid" in classes and op["name"] in [t["name"] for t in spec["tiers"]]:
+            classes.add("replace_of_only_tier_failed")
         if kind == "rename" and isinstance(exc, p.errors.TierNameExistsError):
             classes.add("rename_clash")
         if kind in ("add", "replace") and isinstance(exc, p.errors.TextgridStateAutoModified):
